@@ -14,7 +14,7 @@ from ..common import MachineryError, NCPU
 from .. import build, tlc, run, idb, cpplib
 
 BATCH = 150
-QUICK = ["ExportDesc_sig", "ExportDesc_roles", "ExportDesc_ops", "ExportDesc_enums", "ExportDesc_redecl", "ExportDesc_props",
+QUICK = ["ExportDesc_sig", "ExportDesc_roles", "ExportDesc_ops", "ExportDesc_enums", "ExportDesc_redecl", "ExportDesc_props", "ExportDesc_props2",
          "ExportDesc_bases", "ExportDesc_defbase", "ExportDesc_virt",
          "ExportDesc_copy", "ExportDesc_nest", "ExportDesc_tops"]
 THOROUGH = [c + "_t" for c in QUICK]
@@ -498,6 +498,9 @@ def run_check(ctx):
             raise MachineryError("%s: model invariant %s violated\n%s" % (cfg, res.violated, res.out[-3000:]))
         tlc.must_ok(res, cfg)
         got = sorted({json.dumps(r, sort_keys=True) for r in tlc.read_dump(dump)})
+        if cfg.startswith("ExportDesc_props2"):
+            # the members of these libraries are named by position only: the same simple names in both classes
+            got = [json.dumps(dict(r, lib=dict(r["lib"], samename=True)), sort_keys=True) for r in map(json.loads, got)]
         ctx.notes.setdefault("cases_per_cfg", {})[cfg] = len(got)
         (eseqs if cfg.startswith("CommentAttach_enum") else seqs if cfg.startswith("Comment") else libs).extend(json.loads(x) for x in got)
 
